@@ -416,7 +416,9 @@ Definition c01_ok (h : histcase) : bool :=
   let t := trace_of h in
   no_panic t && fold_trace (tx_step t) (s_max1 (cfg_of h), s_max2 (cfg_of h)) [] t
   && no_publish_after_pubrec t && settled_exchanges t && resend_complete t && own_exchange t.
-Definition c03_ok := c01_ok.
+(* C03 also needs the applied exactly-once limit within the identifier space (no identifier
+   is given out again before its PUBCOMP) *)
+Definition c03_ok (h : histcase) : bool := c01_ok h && (s_max2 (cfg_of h) <=? 16384).
 
 Definition hist_run (ok : histcase -> bool) (l : list histcase) : list N * list N * list (N * N) :=
   (idx_filter hist_agree l 0, idx_filter ok l 0, []).
@@ -535,6 +537,8 @@ Definition sub_step (t : list tev) (s : sub) (m : list (N * list N)) (e : tev) :
 
 Definition c17_ok (h : histcase) : bool :=
   let t := trace_of h in
+  (* the limits the client applied (read from Client.Config after InitSession) fit the identifier space *)
+  (s_max1 (cfg_of h) <=? 16384) && (s_max2 (cfg_of h) <=? 16384) &&
   c01_ok h && fold_trace (sub_step t) (mkSub 0 []) [] t.
 
 (* ------------------------------------------------------------------ *)
@@ -617,6 +621,15 @@ Definition last_conn_in_call (t : list tev) (i : N) : option N :=
 
 (* the last connect attempt of call i certainly failed: its dial (or the load of the client
    identifier) failed and nothing was dialed afterwards *)
+(* the read routine writes a PUBLISH only when connect resends: a failed PUBLISH write in the
+   call that dialed means the attempt failed after the CONNACK *)
+Definition resend_failed (t : list tev) (i : N) : bool :=
+  existsb (fun e => match e with
+                    | TEv j (QWrite _ (b :: _)) (AWr _ r) =>
+                      (* QoS 1/2 only: a released QoS 0 Publish of another goroutine may write during this call *)
+                      (j =? i) && (b / 16 =? 3) && negb ((b / 2) mod 4 =? 0) &&
+                      match r with WHard | WClosed => true | _ => false end   (* an expiry with progress is retried *)
+                    | _ => false end) t.
 Definition attempt_failed (t : list tev) (i : N) : bool :=
   fold_left (fun acc e => match e with
                           | TEv j (QLoad 0) AFail => if j =? i then true else acc
@@ -627,7 +640,7 @@ Definition cs_step (h : histcase) (t : list tev) (s : cs) (m : list (N * list N)
   match e with
   | TRet i OpRead r _ _ online =>
     let attempted := call_loaded_cid t i in
-    let s' := if attempted then mkCs (attempt_failed t i) (cs_closed s) else s in
+    let s' := if attempted then mkCs (attempt_failed t i || (call_dialed t i && resend_failed t i)) (cs_closed s) else s in
     (* a refusing CONNACK (return code 1..255 with a proper header) surfaces as IsConnectionRefused *)
     let refused_ok :=
       match last_conn_in_call t i, r with
@@ -1003,7 +1016,7 @@ Definition rd_step (h : histcase) (t : list tev) (s : rd10) (m : list (N * list 
     let nextr := if spawn_op o then rid + 1 else rd_nextr s in
     (* a request that was written while online and now waits for its response *)
     let await := match r with
-                 | RetParked => if spawn_op o && rd_online s then rid :: await else await
+                 | RetParked => if spawn_op o && rd_online s && wrote_in_call t i then rid :: await else await   (* not one that still waits for the write semaphore *)
                  | _ => await end in
     let s' := mkRd (rd_offline s) (rd_closed s) await nextr online in
     match o with
@@ -1051,13 +1064,29 @@ Fixpoint failed_of (fs : list (list N)) (codes : list N) : list (list N) :=
   | _, _ => []
   end.
 
-Inductive rq := RqSub (pid : N) (fs : list (list N)) | RqUnsub (pid : N) | RqPing | RqOther.
+Inductive rq := RqSub (pid : N) (fs : list (list N)) | RqUnsub (pid : N) | RqPing (c ord : N) | RqOther.
 Record rq11 := mkRq { rq_nextr : N; rq_reqs : list (N * rq) }.
 
 Definition listlist_eqb (a b : list (list N)) : bool :=
   (length a =? length b)%nat && forallb (fun ab => list_eqb (fst ab) (snd ab)) (combine a b).
 
-Definition rq_step (t : list tev) (s : rq11) (m : list (N * list N)) (e : tev) : rq11 * bool :=
+(* PINGRESP carries no identifier: the k-th PINGRESP of a connection answers its k-th PINGREQ.
+   A Ping that returns nil must have its own answer in (recorded finding F26: the PINGRESP of an
+   abandoned Ping completes the next one). *)
+Definition ping_conn (t : list tev) (i : N) : N :=
+  match filter (fun x => (snd x =? i) && match snd (fst (fst x)) with PPingreq => true | _ => false end) (out_packets t) with
+  | x :: _ => fst (fst (fst x))
+  | [] => 0
+  end.
+Definition pingreq_ordinal (t : list tev) (i : N) : N :=
+  let c := ping_conn t i in
+  N.of_nat (length (filter (fun x => (fst (fst (fst x)) =? c) && (snd x <=? i) &&
+                                      match snd (fst (fst x)) with PPingreq => true | _ => false end) (out_packets t))).
+Definition pingresp_count (t : list tev) (c : N) : N :=
+  N.of_nat (length (filter (fun p => match p with PPingresp => true | _ => false end)
+                           (fst (packets_of (skipn 4 (in_bytes c t)))))).
+
+Definition rq_step_gen (lenient_ping : bool) (t : list tev) (s : rq11) (m : list (N * list N)) (e : tev) : rq11 * bool :=
   match e with
   | TRet i o r done _ _ =>
     (* each completion is justified by the response to that very request *)
@@ -1073,7 +1102,8 @@ Definition rq_step (t : list tev) (s : rq11) (m : list (N * list N)) (e : tev) :
                   (subacks_for (upto_call i t) pid)
         else true
       | (_, RqUnsub pid) :: _ => if er =? 0 then unsuback_for (upto_call i t) pid else true
-      | (_, RqPing) :: _ => if er =? 0 then pingresp_seen (upto_call i t) else true
+      | (_, RqPing c ord) :: _ =>
+        if er =? 0 then pingresp_seen (upto_call i t) && (lenient_ping || (ord <=? pingresp_count (upto_call i t) c)) else true
       | _ => true
       end) done in
     match o with
@@ -1084,7 +1114,7 @@ Definition rq_step (t : list tev) (s : rq11) (m : list (N * list N)) (e : tev) :
         let what := match o, flat_map (fun p => match p with
                                                 | PSubscribe id fs => [RqSub id (map fst fs)]
                                                 | PUnsubscribe id _ => [RqUnsub id]
-                                                | PPingreq => [RqPing]
+                                                | PPingreq => [RqPing (ping_conn t i) (pingreq_ordinal t i)]
                                                 | _ => [] end) (packets_in_call t i) with
                     | (OpSub _ _ | OpUnsub _ | OpPing), x :: _ => x
                     | _, _ => RqOther end in
@@ -1094,9 +1124,13 @@ Definition rq_step (t : list tev) (s : rq11) (m : list (N * list N)) (e : tev) :
   | _ => (s, true)
   end.
 
-Definition c11_ok (h : histcase) : bool :=
+Definition rq_step := rq_step_gen false.
+Definition c11_gen (lenient_ping : bool) (h : histcase) : bool :=
   let t := trace_of h in
-  no_panic t && c14_ok h && fold_trace (rq_step t) (mkRq 0 []) [] t && settled_requests t.
-Definition c11_run := hist_run c11_ok.
+  no_panic t && c14_ok h && fold_trace (rq_step_gen lenient_ping t) (mkRq 0 []) [] t && settled_requests t.
+Definition c11_ok := c11_gen false.
+(* F26: fails only by the own-PINGRESP rule *)
+Definition c11_run (l : list histcase) : list N * list N * list (N * N) :=
+  (idx_filter hist_agree l 0, idx_filter c11_ok l 0, idx_known (c11_gen true) c11_ok l 0 26).
 Definition all4_ok (h : histcase) : bool := all3_ok h && c10_ok h && c11_ok h && c12_gen true h.
 Definition all4_run := hist_run all4_ok.
